@@ -65,13 +65,9 @@ func roleGetterContract(p *Prog, r *Report, role, getter string) {
 		getter+" reads exactly the slot raw:"+role, fmt.Sprintf("%s reads %v, expected only raw:%s", getter, reads, role))
 	want := "string(runtime.KVStoreAdapter(k.storeService.OpenKVStore(ctx)).Get(" + roleKeyGlobal[role] + "))"
 	n := 0
-	for _, b := range fn.Blocks {
-		for _, in := range b.Instrs {
-			if ret, ok := in.(*ssa.Return); ok {
-				n++
-				c.teq("getter-contract", "return-value", c.term(ret.Results[0], ret), wantOrEmpty(role, want), p.instrPos(ret))
-			}
-		}
+	for _, vr := range c.virtualReturns() {
+		n++
+		c.teq("getter-contract", "return-value", vr.vals[0], wantOrEmpty(role, want), p.instrPos(vr.at))
 	}
 	if n == 0 {
 		r.fail("getter-contract", "getter-contract/"+getter+"/returns", c.pos(), "no return found")
@@ -122,18 +118,21 @@ func runC10(p *Prog, r *Report, tier string) {
 			r.check(len(reads) == 1 && reads[0] == "raw:pending-owner", "getter-contract", "getter-contract/GetPendingOwner/region", c.pos(),
 				"reads exactly raw:pending-owner", fmt.Sprintf("reads %v", reads))
 			get := "runtime.KVStoreAdapter(k.storeService.OpenKVStore(ctx)).Get(types.PendingOwnerKey)"
-			for _, b := range fn.Blocks {
-				for _, in := range b.Instrs {
-					if ret, ok := in.(*ssa.Return); ok {
-						v, f := c.term(ret.Results[0], ret), c.term(ret.Results[1], ret)
-						okPair := (v == `""` && f == "false") || (v == "string("+get+")" && f == "true")
-						r.check(okPair, "getter-contract", "getter-contract/GetPendingOwner/return/"+f, p.instrPos(ret),
-							"returns ("+v+", "+f+")", "unexpected return pair ("+v+", "+f+")")
-					}
+			var withTrue []vret
+			for _, vr := range c.virtualReturns() {
+				if len(vr.vals) != 2 {
+					continue
+				}
+				v, f := vr.vals[0], vr.vals[1]
+				okPair := (v == `""` && f == "false") || (v == "string("+get+")" && f == "true")
+				r.check(okPair, "getter-contract", "getter-contract/GetPendingOwner/return/"+f, p.instrPos(vr.at),
+					"returns ("+v+", "+f+")", "unexpected return pair ("+v+", "+f+")")
+				if f != "false" {
+					withTrue = append(withTrue, vr)
 				}
 			}
 			// found=true only when the stored bytes are non-nil
-			c.requireCut("getter-contract", "found-implies-present", []Atom{A("!(" + get + " == nil)"), A("!(nil == " + get + ")")}, returnsWithTrue(c))
+			c.requireCutRets("getter-contract", "found-implies-present", []Atom{A("!(" + get + " == nil)"), A("!(nil == " + get + ")")}, withTrue)
 			continue
 		}
 		roleGetterContract(p, r, role, g)
